@@ -1,1 +1,1080 @@
-pub fn main(_args: &[String]) -> i32 { eprintln!("not built yet"); 2 }
+//! C18: walk the state graph of spec/BufLogIO.tla on the real `BufferedRaftLog` running over a
+//! gated LogStore (written / synced layers; every call of the IO task stops at a gate until the
+//! harness lets it pass), and over the File / RocksDB engines.
+//!
+//! Gated mode: every operation sequence of the graph is executed; at every state (between any two
+//! LogStore calls of the IO task and at every operation boundary) the store is "crashed" without
+//! disturbing the run: the written layer (process crash) and the synced layer (power loss) are
+//! copied, a fresh BufferedRaftLog is built on each copy and read back. Conformance: every gate
+//! call, durable_index(), the in-memory log and the recovered logs are compared with the spec
+//! state. Property monitors are evaluated on the OBSERVED values and cross-checked with the
+//! verdict TLC computed for the state whenever the observations conform.
+//!
+//! Engine mode (file / rocksdb): the same operation sequences with the IO task running freely to
+//! quiescence after every operation; process crash = copy of the data directory at the operation
+//! boundary, reopened by a fresh engine + BufferedRaftLog.
+use std::collections::{BTreeMap, HashMap};
+use std::ops::RangeInclusive;
+use std::path::{Path, PathBuf};
+use std::sync::atomic::{AtomicU64, Ordering};
+use std::sync::{Arc, Condvar, Mutex};
+use std::time::{Duration, Instant};
+
+use async_trait::async_trait;
+use d_engine_core::*;
+use d_engine_proto::common::{Entry, LogId};
+use d_engine_server::verif_exports::RaftMembership;
+use d_engine_server::{FileStorageEngine, RocksDBStorageEngine};
+use dv_common::mem::MemSm;
+use dv_common::net::SimTransport;
+use serde::{Deserialize, Serialize};
+use serde_json::{Value, json};
+
+use crate::util::*;
+
+type R<T> = std::result::Result<T, Error>;
+
+// ---------------------------------------------------------------------------------------------
+// gated in-memory store
+// ---------------------------------------------------------------------------------------------
+#[derive(Clone, Debug, Serialize, Deserialize, PartialEq, Default)]
+pub struct Call {
+    pub c: String,
+    #[serde(default)]
+    pub es: Vec<It>,
+    #[serde(default)]
+    pub from: u64,
+    #[serde(default)]
+    pub i: u64,
+    #[serde(default)]
+    pub t: u64,
+    #[serde(default, skip_serializing)]
+    pub end: u64,
+}
+#[derive(Clone, Debug, Serialize, Deserialize, PartialEq, Default)]
+pub struct It {
+    pub i: u64,
+    pub t: u64,
+}
+
+#[derive(Default)]
+struct GateSt {
+    pending: Option<Call>,
+    release: bool,
+    executing: bool,
+    done: u64,
+    /// gate open: calls pass without waiting (used when the run is torn down)
+    open: bool,
+}
+#[derive(Default)]
+pub struct Gate {
+    st: Mutex<GateSt>,
+    cv: Condvar,
+}
+
+#[derive(Default, Clone)]
+pub struct Layers {
+    w: BTreeMap<u64, Entry>,
+    s: BTreeMap<u64, Entry>,
+    wpb: Option<LogId>,
+    spb: Option<LogId>,
+}
+
+#[derive(Default)]
+pub struct GateLog {
+    layers: Mutex<Layers>,
+    gate: Option<Arc<Gate>>,
+}
+
+impl GateLog {
+    fn pass(
+        &self,
+        call: Call,
+    ) {
+        if let Some(g) = &self.gate {
+            let mut st = g.st.lock().unwrap();
+            if st.open {
+                st.executing = true;
+                return;
+            }
+            st.pending = Some(call);
+            g.cv.notify_all();
+            while !st.release && !st.open {
+                st = g.cv.wait(st).unwrap();
+            }
+            st.release = false;
+            st.pending = None;
+            st.executing = true;
+        }
+    }
+    fn done(&self) {
+        if let Some(g) = &self.gate {
+            let mut st = g.st.lock().unwrap();
+            st.executing = false;
+            st.done += 1;
+            g.cv.notify_all();
+        }
+    }
+    fn image(
+        &self,
+        power: bool,
+    ) -> GateLog {
+        let l = self.layers.lock().unwrap();
+        let (e, pb) = if power { (l.s.clone(), l.spb) } else { (l.w.clone(), l.wpb) };
+        GateLog {
+            layers: Mutex::new(Layers {
+                w: e.clone(),
+                s: e,
+                wpb: pb,
+                spb: pb,
+            }),
+            gate: None,
+        }
+    }
+}
+
+fn its(es: &[Entry]) -> Vec<It> {
+    es.iter()
+        .map(|e| It {
+            i: e.index,
+            t: e.term,
+        })
+        .collect()
+}
+
+#[async_trait]
+impl LogStore for GateLog {
+    async fn persist_entries(
+        &self,
+        entries: Vec<Entry>,
+    ) -> R<()> {
+        self.pass(Call {
+            c: "persist".into(),
+            es: its(&entries),
+            ..Default::default()
+        });
+        {
+            let mut l = self.layers.lock().unwrap();
+            for e in entries {
+                l.w.insert(e.index, e);
+            }
+        }
+        self.done();
+        Ok(())
+    }
+    async fn entry(
+        &self,
+        index: u64,
+    ) -> R<Option<Entry>> {
+        Ok(self.layers.lock().unwrap().w.get(&index).cloned())
+    }
+    fn get_entries(
+        &self,
+        range: RangeInclusive<u64>,
+    ) -> R<Vec<Entry>> {
+        Ok(self.layers.lock().unwrap().w.range(range).map(|(_, e)| e.clone()).collect())
+    }
+    async fn purge(
+        &self,
+        cutoff: LogId,
+    ) -> R<()> {
+        self.pass(Call {
+            c: "purge".into(),
+            i: cutoff.index,
+            t: cutoff.term,
+            ..Default::default()
+        });
+        {
+            let mut l = self.layers.lock().unwrap();
+            l.w.retain(|k, _| *k > cutoff.index);
+            l.wpb = Some(cutoff);
+        }
+        self.done();
+        Ok(())
+    }
+    async fn truncate(
+        &self,
+        from: u64,
+    ) -> R<()> {
+        self.pass(Call {
+            c: "truncate".into(),
+            from,
+            ..Default::default()
+        });
+        self.layers.lock().unwrap().w.retain(|k, _| *k < from);
+        self.done();
+        Ok(())
+    }
+    async fn replace_range(
+        &self,
+        from: u64,
+        new_entries: Vec<Entry>,
+    ) -> R<()> {
+        self.pass(Call {
+            c: "replace".into(),
+            from,
+            es: its(&new_entries),
+            ..Default::default()
+        });
+        {
+            let mut l = self.layers.lock().unwrap();
+            l.w.retain(|k, _| *k < from);
+            for e in new_entries {
+                l.w.insert(e.index, e);
+            }
+        }
+        self.done();
+        Ok(())
+    }
+    fn is_write_durable(&self) -> bool {
+        false
+    }
+    fn flush(&self) -> R<()> {
+        self.pass(Call {
+            c: "flush".into(),
+            ..Default::default()
+        });
+        {
+            let mut l = self.layers.lock().unwrap();
+            l.s = l.w.clone();
+            l.spb = l.wpb;
+        }
+        self.done();
+        Ok(())
+    }
+    async fn flush_async(&self) -> R<()> {
+        LogStore::flush(self)
+    }
+    async fn reset(&self) -> R<()> {
+        self.pass(Call {
+            c: "reset".into(),
+            ..Default::default()
+        });
+        self.layers.lock().unwrap().w.clear();
+        self.done();
+        Ok(())
+    }
+    fn last_index(&self) -> u64 {
+        self.layers.lock().unwrap().w.keys().next_back().copied().unwrap_or(0)
+    }
+    fn load_purge_boundary(&self) -> R<Option<LogId>> {
+        Ok(self.layers.lock().unwrap().wpb)
+    }
+}
+
+#[derive(Default)]
+pub struct GateMeta {
+    hs: Mutex<Option<HardState>>,
+}
+impl MetaStore for GateMeta {
+    fn save_hard_state(
+        &self,
+        s: &HardState,
+    ) -> R<()> {
+        *self.hs.lock().unwrap() = Some(*s);
+        Ok(())
+    }
+    fn load_hard_state(&self) -> R<Option<HardState>> {
+        Ok(*self.hs.lock().unwrap())
+    }
+}
+
+impl std::fmt::Debug for GateEngine {
+    fn fmt(
+        &self,
+        f: &mut std::fmt::Formatter<'_>,
+    ) -> std::fmt::Result {
+        f.write_str("GateEngine")
+    }
+}
+pub struct GateEngine {
+    l: Arc<GateLog>,
+    m: Arc<GateMeta>,
+}
+impl StorageEngine for GateEngine {
+    type LogStore = GateLog;
+    type MetaStore = GateMeta;
+    fn log_store(&self) -> Arc<GateLog> {
+        self.l.clone()
+    }
+    fn meta_store(&self) -> Arc<GateMeta> {
+        self.m.clone()
+    }
+}
+
+macro_rules! tc {
+    ($name:ident, $se:ty) => {
+        #[derive(Debug)]
+        pub struct $name;
+        impl TypeConfig for $name {
+            type SE = $se;
+            type SM = MemSm;
+            type R = BufferedRaftLog<Self>;
+            type M = RaftMembership<Self>;
+            type TR = SimTransport<Self>;
+            type E = ElectionHandler<Self>;
+            type REP = ReplicationHandler<Self>;
+            type C = DefaultCommitHandler<Self>;
+            type SMH = DefaultStateMachineHandler<Self>;
+            type SNP = LogSizePolicy;
+            type PE = DefaultPurgeExecutor<Self>;
+        }
+    };
+}
+tc!(GateTc, GateEngine);
+tc!(FileTc, FileStorageEngine);
+tc!(RocksTc, RocksDBStorageEngine);
+
+fn pcfg() -> PersistenceConfig {
+    let mut c = PersistenceConfig::default();
+    // no idle timer during a run: the IO task acts only on notifications and commands
+    c.flush_policy = FlushPolicy::Batch {
+        idle_flush_interval_ms: 3_600_000,
+    };
+    c
+}
+
+// ---------------------------------------------------------------------------------------------
+// graph
+// ---------------------------------------------------------------------------------------------
+#[derive(Deserialize, Clone, Debug)]
+struct Verdict {
+    gapfree: bool,
+    durable: bool,
+    flush: bool,
+    nores: bool,
+}
+#[derive(Deserialize, Clone, Debug)]
+struct CrashExp {
+    rec: Vec<u64>,
+    verdict: Verdict,
+}
+#[derive(Deserialize, Clone, Debug)]
+struct Obs {
+    mem: Vec<u64>,
+    dur: u64,
+    fl: bool,
+    next: Call,
+    inflight: bool,
+    process: CrashExp,
+    power: CrashExp,
+}
+#[derive(Deserialize)]
+struct StateJ {
+    k: Value,
+    obs: Obs,
+}
+#[derive(Deserialize, Serialize, Clone, Debug)]
+#[serde(tag = "k", rename_all = "lowercase")]
+enum Op {
+    Append { es: Vec<It> },
+    Conflict { p: u64, pt: u64, es: Vec<It> },
+    Purge { i: u64, t: u64 },
+    Resetappend { es: Vec<It> },
+    Flush { short: bool },
+    Io { call: Call },
+}
+#[derive(Deserialize)]
+struct EdgeJ {
+    f: Value,
+    t: Value,
+    op: Op,
+}
+struct Edge {
+    to: usize,
+    op: Op,
+}
+struct Graph {
+    max_idx: u64,
+    states: Vec<Obs>,
+    init: usize,
+    ops: Vec<Vec<Edge>>,
+    io: Vec<Option<usize>>,
+    n_edges: usize,
+}
+
+fn load_graph(
+    path: &str,
+    max_idx: u64,
+) -> Graph {
+    use std::io::BufRead;
+    let f = std::io::BufReader::new(std::fs::File::open(path).expect("open graph"));
+    let mut ids: HashMap<String, usize> = HashMap::new();
+    let mut keys = vec![];
+    let mut states = vec![];
+    let mut edges: Vec<EdgeJ> = vec![];
+    for line in f.lines() {
+        let line = line.expect("read");
+        if let Some(r) = line.strip_prefix("S ") {
+            let s: StateJ = serde_json::from_str(r).expect("state json");
+            ids.insert(s.k.to_string(), states.len());
+            keys.push(s.k);
+            states.push(s.obs);
+        } else if let Some(r) = line.strip_prefix("E ") {
+            edges.push(serde_json::from_str(r).expect("edge json"));
+        }
+    }
+    let n = states.len();
+    let mut ops: Vec<Vec<Edge>> = (0..n).map(|_| vec![]).collect();
+    let mut io: Vec<Option<usize>> = vec![None; n];
+    let n_edges = edges.len();
+    for e in edges {
+        let fi = ids[&e.f.to_string()];
+        let ti = ids[&e.t.to_string()];
+        match e.op {
+            Op::Io { .. } => io[fi] = Some(ti),
+            op => ops[fi].push(Edge { to: ti, op }),
+        }
+    }
+    for v in ops.iter_mut() {
+        v.sort_by_key(|e| serde_json::to_string(&e.op).unwrap());
+    }
+    // initial state: nops (last key component) = 0
+    let init = keys.iter().position(|k| k.as_array().unwrap().last().unwrap() == &json!(0)).expect("init");
+    Graph {
+        max_idx,
+        states,
+        init,
+        ops,
+        io,
+        n_edges,
+    }
+}
+
+// ---------------------------------------------------------------------------------------------
+// monitors on observed values
+// ---------------------------------------------------------------------------------------------
+#[derive(Clone, Default)]
+struct Reported {
+    mem: Vec<u64>,
+    dur: u64,
+    fl: bool,
+}
+
+fn gapfree(r: &[u64]) -> bool {
+    let idx: Vec<usize> = (0..r.len()).filter(|i| r[*i] != 0).collect();
+    idx.windows(2).all(|w| w[1] == w[0] + 1)
+}
+
+/// requirement = what was reported durable in `rep`, restricted to entries equal in `now`
+/// (an operation in flight may have touched the others); `reset_inflight`: nothing is required.
+fn check_monitors(
+    rec: &[u64],
+    rep: &Reported,
+    now_mem: &[u64],
+    reset_inflight: bool,
+    repl: &[(u64, u64)],
+    process: bool,
+) -> Vec<(String, String)> {
+    let mut v = vec![];
+    if !gapfree(rec) {
+        v.push(("GapFree".to_string(), format!("recovered={rec:?}")));
+    }
+    if !reset_inflight {
+        for i in 1..rep.mem.len() {
+            let m = rep.mem[i];
+            if m == 0 || now_mem[i] != m {
+                continue;
+            }
+            if (i as u64) <= rep.dur && rec[i] != m {
+                v.push(("DurableKept".to_string(), format!("index={i} log={m} recovered={} durable_index={}", rec[i], rep.dur)));
+            }
+            if rep.fl && rec[i] != m {
+                v.push(("FlushKept".to_string(), format!("index={i} log={m} recovered={}", rec[i])));
+            }
+        }
+    }
+    if process {
+        for i in 1..rec.len() {
+            if rec[i] != 0 && repl.contains(&(i as u64, rec[i])) {
+                v.push(("NoResurrection".to_string(), format!("index={i} recovered={}", rec[i])));
+            }
+        }
+    }
+    v
+}
+
+// ---------------------------------------------------------------------------------------------
+// gated run
+// ---------------------------------------------------------------------------------------------
+#[derive(Serialize, Clone)]
+struct Finding {
+    /// violation | divergence | oracle-disagreement
+    kind: String,
+    monitor: String,
+    crash: String,
+    detail: String,
+    path: Vec<Op>,
+    /// how many LogStore calls of the last operation had been executed (-1: operation boundary)
+    io_step: i64,
+    inflight: bool,
+    engine: String,
+}
+
+struct GatedRun {
+    gate: Arc<Gate>,
+    store: Arc<GateLog>,
+    log: Arc<BufferedRaftLog<GateTc>>,
+}
+
+impl GatedRun {
+    fn new() -> Self {
+        let gate = Arc::new(Gate::default());
+        let store = Arc::new(GateLog {
+            layers: Mutex::new(Layers::default()),
+            gate: Some(gate.clone()),
+        });
+        let eng = Arc::new(GateEngine {
+            l: store.clone(),
+            m: Arc::new(GateMeta::default()),
+        });
+        let (log, rx) = BufferedRaftLog::<GateTc>::new(1, pcfg(), eng);
+        let log = log.start(rx, None);
+        GatedRun { gate, store, log }
+    }
+    fn wait_arrival(
+        &self,
+        timeout: Duration,
+    ) -> Option<Call> {
+        let st = self.gate.st.lock().unwrap();
+        let (st, _) = self.gate.cv.wait_timeout_while(st, timeout, |s| s.pending.is_none()).unwrap();
+        st.pending.clone()
+    }
+    /// let the pending call execute; wait until it finished
+    fn release(&self) {
+        let mut st = self.gate.st.lock().unwrap();
+        let done0 = st.done;
+        st.release = true;
+        self.gate.cv.notify_all();
+        let _ = self
+            .gate
+            .cv
+            .wait_timeout_while(st, Duration::from_secs(10), |s| s.done == done0)
+            .unwrap();
+    }
+    fn recovered(
+        &self,
+        power: bool,
+        max_idx: u64,
+    ) -> Vec<u64> {
+        let img = Arc::new(GateEngine {
+            l: Arc::new(self.store.image(power)),
+            m: Arc::new(GateMeta::default()),
+        });
+        let (log, _rx) = BufferedRaftLog::<GateTc>::new(1, pcfg(), img);
+        read_log(&log, max_idx)
+    }
+}
+
+fn read_log<T: TypeConfig>(
+    log: &BufferedRaftLog<T>,
+    max_idx: u64,
+) -> Vec<u64> {
+    let mut v = vec![0u64; (max_idx + 2) as usize];
+    if let Ok(es) = log.get_entries_range(0..=(max_idx + 1)) {
+        for e in es {
+            if (e.index as usize) < v.len() {
+                v[e.index as usize] = if variant_of(&e) == Some(0) { e.term } else { 99 };
+            }
+        }
+    }
+    v
+}
+
+fn entries(es: &[It]) -> Vec<Entry> {
+    es.iter().map(|x| mk_entry(x.i, x.t, 0)).collect()
+}
+
+type OpFut<'a> = std::pin::Pin<Box<dyn std::future::Future<Output = std::result::Result<(), String>> + 'a>>;
+
+fn op_future<'a, T: TypeConfig>(
+    log: &'a Arc<BufferedRaftLog<T>>,
+    op: &'a Op,
+) -> OpFut<'a> {
+    Box::pin(async move {
+        match op {
+            Op::Append { es } => log.append_entries(entries(es)).await.map_err(|e| format!("{e:?}")),
+            Op::Conflict { p, pt, es } => log
+                .filter_out_conflicts_and_append(*p, *pt, entries(es))
+                .await
+                .map(|_| ())
+                .map_err(|e| format!("{e:?}")),
+            Op::Resetappend { es } => log
+                .filter_out_conflicts_and_append(0, 0, entries(es))
+                .await
+                .map(|_| ())
+                .map_err(|e| format!("{e:?}")),
+            Op::Purge { i, t } => log
+                .purge_logs_up_to(LogId {
+                    index: *i,
+                    term: *t,
+                })
+                .await
+                .map_err(|e| format!("{e:?}")),
+            Op::Flush { .. } => log.flush().await.map_err(|e| format!("{e:?}")),
+            Op::Io { .. } => Ok(()),
+        }
+    })
+}
+
+fn same_call(
+    a: &Call,
+    b: &Call,
+) -> bool {
+    a.c == b.c && a.es == b.es && a.from == b.from && a.i == b.i && a.t == b.t
+}
+
+struct Stats {
+    paths: AtomicU64,
+    states: AtomicU64,
+    crash_checks: AtomicU64,
+    gate_calls: AtomicU64,
+    nontrivial: AtomicU64,
+}
+
+/// Execute one operation sequence (edges from the initial state) in gated mode.
+fn run_gated(
+    g: &Graph,
+    rt: &tokio::runtime::Runtime,
+    path: &[&Edge],
+    stats: &Stats,
+    out: &mut Vec<Finding>,
+) {
+    let run = GatedRun::new();
+    let m = g.max_idx;
+    let n = (m + 2) as usize;
+    let mut s = g.init;
+    let mut rep = Reported {
+        mem: vec![0; n],
+        dur: 0,
+        fl: false,
+    };
+    let mut repl: Vec<(u64, u64)> = vec![];
+    let mut diverged = false;
+    let ops_so_far = |k: usize| path[..=k].iter().map(|e| e.op.clone()).collect::<Vec<_>>();
+    let finding = |kind: &str, monitor: &str, crash: &str, detail: String, k: usize, io_step: i64, inflight: bool, out: &mut Vec<Finding>| {
+        out.push(Finding {
+            kind: kind.into(),
+            monitor: monitor.into(),
+            crash: crash.into(),
+            detail,
+            path: ops_so_far(k),
+            io_step,
+            inflight,
+            engine: "gated-memory".into(),
+        });
+    };
+    for (k, e) in path.iter().enumerate() {
+        let before = rep.clone();
+        let reset_op = matches!(e.op, Op::Resetappend { .. });
+        let mut fut = op_future(&run.log, &e.op);
+        // start the call: runs until it has to wait for the IO task (or completes)
+        let mut result: Option<std::result::Result<(), String>> =
+            rt.block_on(async { tokio::time::timeout(Duration::from_millis(0), &mut fut).await.ok() });
+        let mut st = e.to;
+        let mut io_step: i64 = 0;
+        // crash checks of a state (both crash kinds), without disturbing the run
+        let crash_check = |st: usize, io_step: i64, inflight: bool, rep_now: &Reported, now_mem: &[u64], conform: bool, repl: &[(u64, u64)], out: &mut Vec<Finding>| {
+            stats.states.fetch_add(1, Ordering::Relaxed);
+            for power in [false, true] {
+                stats.crash_checks.fetch_add(1, Ordering::Relaxed);
+                let kind = if power { "power" } else { "process" };
+                let rec = run.recovered(power, m);
+                let exp = if power { &g.states[st].power } else { &g.states[st].process };
+                let rec_ok = conform && rec[1..=(m as usize)] == exp.rec[..];
+                if conform && !rec_ok {
+                    finding("divergence", "RecoveredLog", kind, format!("expected {:?} got {:?}", exp.rec, &rec[1..=(m as usize)]), k, io_step, inflight, out);
+                }
+                let vs = check_monitors(&rec, rep_now, now_mem, inflight && reset_op, repl, !power);
+                // cross-check with TLC's verdict for this state when everything observed conforms
+                if rec_ok {
+                    let got = (
+                        !vs.iter().any(|x| x.0 == "GapFree"),
+                        !vs.iter().any(|x| x.0 == "DurableKept"),
+                        !vs.iter().any(|x| x.0 == "FlushKept"),
+                        !vs.iter().any(|x| x.0 == "NoResurrection"),
+                    );
+                    let v = &exp.verdict;
+                    if got != (v.gapfree, v.durable, v.flush, v.nores) {
+                        finding("oracle-disagreement", "Verdict", kind, format!("tlc={v:?} harness={got:?}"), k, io_step, inflight, out);
+                    }
+                }
+                for (mon, detail) in vs {
+                    finding("violation", &mon, kind, detail, k, io_step, inflight, out);
+                }
+            }
+        };
+        // memory after the call's synchronous part
+        let mem_now = read_log(&run.log, m);
+        if !diverged && mem_now[1..=(m as usize)] != g.states[st].mem[..] {
+            diverged = true;
+            finding("divergence", "MemoryLog", "", format!("expected {:?} got {:?}", g.states[st].mem, &mem_now[1..=(m as usize)]), k, 0, true, out);
+        }
+        // the IO task's calls for this operation
+        loop {
+            let predicted = if diverged { None } else { Some(g.states[st].next.clone()) };
+            let idle_expected = predicted.as_ref().map(|c| c.c == "idle").unwrap_or(false);
+            let arrival = run.wait_arrival(if idle_expected || diverged { Duration::from_millis(if diverged { 30 } else { 3 }) } else { Duration::from_secs(5) });
+            match (arrival, predicted) {
+                (None, Some(p)) if p.c == "idle" => break,
+                (None, None) => break,
+                (None, Some(p)) => {
+                    diverged = true;
+                    finding("divergence", "IoCall", "", format!("expected {p:?}, no call arrived"), k, io_step, true, out);
+                    break;
+                }
+                (Some(c), p) => {
+                    stats.gate_calls.fetch_add(1, Ordering::Relaxed);
+                    if let Some(p) = &p {
+                        if !same_call(&c, p) {
+                            diverged = true;
+                            finding("divergence", "IoCall", "", format!("expected {p:?} got {c:?}"), k, io_step, true, out);
+                        }
+                    }
+                    // crash while this call has not been executed yet
+                    if result.is_none() || !diverged {
+                        crash_check(st, io_step, true, &before, &mem_now, !diverged, &repl, out);
+                    }
+                    run.release();
+                    io_step += 1;
+                    if !diverged {
+                        st = g.io[st].expect("io edge");
+                    }
+                    // let the call complete if it can
+                    if result.is_none() {
+                        result = rt.block_on(async { tokio::time::timeout(Duration::from_millis(0), &mut fut).await.ok() });
+                    }
+                }
+            }
+        }
+        // the call must have returned by now
+        if result.is_none() {
+            result = rt.block_on(async { tokio::time::timeout(Duration::from_secs(5), &mut fut).await.ok() });
+        }
+        drop(fut);
+        let ok = matches!(result, Some(Ok(())));
+        if !ok {
+            finding("violation", "OperationResult", "", format!("{result:?}"), k, -1, false, out);
+            break;
+        }
+        // settle: durable_index as predicted (the IO task publishes it right after the flush call)
+        let t0 = Instant::now();
+        let want = if diverged { None } else { Some(g.states[st].dur) };
+        let mut d = run.log.durable_index();
+        while let Some(w) = want {
+            if d == w || t0.elapsed() > Duration::from_millis(500) {
+                break;
+            }
+            std::thread::sleep(Duration::from_micros(200));
+            d = run.log.durable_index();
+        }
+        if diverged {
+            std::thread::sleep(Duration::from_millis(20));
+            d = run.log.durable_index();
+        }
+        if let Some(w) = want {
+            if d != w {
+                diverged = true;
+                finding("divergence", "DurableIndex", "", format!("expected {w} got {d}"), k, -1, false, out);
+            }
+        }
+        // operation boundary: what the log reports now
+        let mem_after = read_log(&run.log, m);
+        match &e.op {
+            Op::Conflict { .. } | Op::Resetappend { .. } => {
+                for i in 1..n {
+                    if before.mem[i] != 0 && before.mem[i] != mem_after[i] && matches!(e.op, Op::Conflict { .. }) {
+                        repl.push((i as u64, before.mem[i]));
+                    }
+                }
+            }
+            _ => {}
+        }
+        rep = Reported {
+            mem: mem_after.clone(),
+            dur: d,
+            fl: matches!(e.op, Op::Flush { .. }),
+        };
+        if !diverged && g.states[st].fl != rep.fl {
+            finding("divergence", "FlushFlag", "", format!("expected {} got {}", g.states[st].fl, rep.fl), k, -1, false, out);
+        }
+        crash_check(st, -1, false, &rep, &mem_after, !diverged, &repl, out);
+        s = st;
+    }
+    let _ = s;
+    stats.paths.fetch_add(1, Ordering::Relaxed);
+    if path.iter().any(|e| matches!(e.op, Op::Conflict { .. } | Op::Purge { .. } | Op::Resetappend { .. })) {
+        stats.nontrivial.fetch_add(1, Ordering::Relaxed);
+    }
+    {
+        let mut st = run.gate.st.lock().unwrap();
+        st.open = true;
+        run.gate.cv.notify_all();
+    }
+    rt.block_on(async {
+        let _ = tokio::time::timeout(Duration::from_secs(10), run.log.close()).await;
+    });
+}
+
+// ---------------------------------------------------------------------------------------------
+// File / RocksDB engines: free-running IO task, process crash by directory copy
+// ---------------------------------------------------------------------------------------------
+fn wait_quiet<T: TypeConfig>(log: &Arc<BufferedRaftLog<T>>) {
+    // the IO task is quiescent when durable_index stops moving
+    let mut last = log.durable_index();
+    let mut stable = 0;
+    for _ in 0..200 {
+        std::thread::sleep(Duration::from_millis(2));
+        let d = log.durable_index();
+        if d == last {
+            stable += 1;
+            if stable >= 5 {
+                return;
+            }
+        } else {
+            stable = 0;
+            last = d;
+        }
+    }
+}
+
+fn run_engine_generic<T: TypeConfig>(
+    g: &Graph,
+    rt: &tokio::runtime::Runtime,
+    path: &[&Edge],
+    engine: &str,
+    dir: &Path,
+    open: &dyn Fn(&Path) -> std::result::Result<Arc<T::SE>, String>,
+    stats: &Stats,
+    out: &mut Vec<Finding>,
+) {
+    let m = g.max_idx;
+    let n = (m + 2) as usize;
+    let _ = std::fs::remove_dir_all(dir);
+    let live = dir.join("live");
+    let copy = dir.join("copy");
+    let se = match open(&live) {
+        Ok(s) => s,
+        Err(e) => {
+            out.push(Finding { kind: "violation".into(), monitor: "Open".into(), crash: "".into(), detail: e, path: vec![], io_step: -1, inflight: false, engine: engine.into() });
+            return;
+        }
+    };
+    let (log, rx) = BufferedRaftLog::<T>::new(1, pcfg(), se.clone());
+    let log = log.start(rx, None);
+    let mut repl: Vec<(u64, u64)> = vec![];
+    let mut rep = Reported { mem: vec![0; n], dur: 0, fl: false };
+    for (k, e) in path.iter().enumerate() {
+        let before = rep.clone();
+        let mut fut = op_future(&log, &e.op);
+        let result = rt.block_on(async { tokio::time::timeout(Duration::from_secs(20), &mut fut).await.ok() });
+        drop(fut);
+        let ops = path[..=k].iter().map(|x| x.op.clone()).collect::<Vec<_>>();
+        if !matches!(result, Some(Ok(()))) {
+            out.push(Finding { kind: "violation".into(), monitor: "OperationResult".into(), crash: "".into(), detail: format!("{result:?}"), path: ops, io_step: -1, inflight: false, engine: engine.into() });
+            break;
+        }
+        wait_quiet(&log);
+        let mem_after = read_log(&log, m);
+        if let Op::Conflict { .. } = &e.op {
+            for i in 1..n {
+                if before.mem[i] != 0 && before.mem[i] != mem_after[i] {
+                    repl.push((i as u64, before.mem[i]));
+                }
+            }
+        }
+        rep = Reported { mem: mem_after.clone(), dur: log.durable_index(), fl: matches!(e.op, Op::Flush { .. }) };
+        // conformance of what the log reports (same model, the store is only slower)
+        let st = {
+            // follow op edge + io edges to the next idle state
+            let mut s = e.to;
+            while let Some(nx) = g.io[s] {
+                s = nx;
+            }
+            s
+        };
+        if mem_after[1..=(m as usize)] != g.states[st].mem[..] || rep.dur != g.states[st].dur {
+            out.push(Finding { kind: "divergence".into(), monitor: "Reported".into(), crash: "".into(),
+                detail: format!("expected mem {:?} dur {} got mem {:?} dur {}", g.states[st].mem, g.states[st].dur, &mem_after[1..=(m as usize)], rep.dur),
+                path: ops.clone(), io_step: -1, inflight: false, engine: engine.into() });
+        }
+        // process crash image: copy of the data directory now
+        stats.states.fetch_add(1, Ordering::Relaxed);
+        stats.crash_checks.fetch_add(1, Ordering::Relaxed);
+        let _ = std::fs::remove_dir_all(&copy);
+        if let Err(e2) = crate::logstore::copy_dir(&live, &copy) {
+            out.push(Finding { kind: "divergence".into(), monitor: "Copy".into(), crash: "process".into(), detail: e2, path: ops, io_step: -1, inflight: false, engine: engine.into() });
+            break;
+        }
+        match open(&copy) {
+            Ok(se2) => {
+                let (l2, _rx2) = BufferedRaftLog::<T>::new(1, pcfg(), se2);
+                let rec = read_log(&l2, m);
+                drop(l2);
+                for (mon, detail) in check_monitors(&rec, &rep, &mem_after, false, &repl, true) {
+                    out.push(Finding { kind: "violation".into(), monitor: mon, crash: "process".into(), detail, path: ops.clone(), io_step: -1, inflight: false, engine: engine.into() });
+                }
+            }
+            Err(e2) => out.push(Finding { kind: "violation".into(), monitor: "Reopen".into(), crash: "process".into(), detail: e2, path: ops, io_step: -1, inflight: false, engine: engine.into() }),
+        }
+        let _ = std::fs::remove_dir_all(&copy);
+    }
+    stats.paths.fetch_add(1, Ordering::Relaxed);
+    if path.iter().any(|e| matches!(e.op, Op::Conflict { .. } | Op::Purge { .. } | Op::Resetappend { .. })) {
+        stats.nontrivial.fetch_add(1, Ordering::Relaxed);
+    }
+    rt.block_on(async {
+        let _ = tokio::time::timeout(Duration::from_secs(10), log.close()).await;
+    });
+    drop(log);
+    drop(se);
+    let _ = std::fs::remove_dir_all(dir);
+}
+
+fn run_engine(
+    g: &Graph,
+    rt: &tokio::runtime::Runtime,
+    path: &[&Edge],
+    engine: &str,
+    dir: &Path,
+    stats: &Stats,
+    out: &mut Vec<Finding>,
+) {
+    match engine {
+        "file" => run_engine_generic::<FileTc>(g, rt, path, engine, dir,
+            &|p: &Path| FileStorageEngine::new(p.to_path_buf()).map(Arc::new).map_err(|e| format!("{e:?}")), stats, out),
+        "rocksdb" => run_engine_generic::<RocksTc>(g, rt, path, engine, dir,
+            &|p: &Path| { std::fs::create_dir_all(p).ok(); RocksDBStorageEngine::new(p.join("db")).map(Arc::new).map_err(|e| format!("{e:?}")) }, stats, out),
+        _ => {}
+    }
+}
+
+// ---------------------------------------------------------------------------------------------
+pub fn main(args: &[String]) -> i32 {
+    let gpath = arg(args, "--graph").expect("--graph");
+    let out = arg(args, "--out").expect("--out");
+    let max_idx = arg_u64(args, "--max-idx", 4);
+    let threads = arg_u64(args, "--threads", 4) as usize;
+    let engine = arg(args, "--engine").unwrap_or_else(|| "gated".into());
+    let sample = arg_u64(args, "--sample", 0); // engines: run only this many paths (seeded)
+    let seed = arg_u64(args, "--seed", 1);
+    let scratch = PathBuf::from(arg(args, "--scratch").unwrap_or_else(|| "/verif/.work/store-crashlog".into()));
+    std::panic::set_hook(Box::new(|_| {}));
+    let g = load_graph(&gpath, max_idx);
+
+    // all maximal operation sequences
+    let mut paths: Vec<Vec<(usize, usize)>> = vec![]; // (state, op edge index)
+    fn rec(
+        g: &Graph,
+        s: usize,
+        cur: &mut Vec<(usize, usize)>,
+        paths: &mut Vec<Vec<(usize, usize)>>,
+    ) {
+        // follow io edges to the idle state
+        let mut st = s;
+        while let Some(nx) = g.io[st] {
+            st = nx;
+        }
+        if g.ops[st].is_empty() {
+            paths.push(cur.clone());
+            return;
+        }
+        for (i, e) in g.ops[st].iter().enumerate() {
+            cur.push((st, i));
+            rec(g, e.to, cur, paths);
+            cur.pop();
+        }
+    }
+    if let Some(rp) = arg(args, "--replay") {
+        let v: Value = serde_json::from_str(&std::fs::read_to_string(&rp).expect("replay")).unwrap();
+        let ops: Vec<Op> = serde_json::from_value(v["path"].clone()).expect("path");
+        let mut st = g.init;
+        let mut p = vec![];
+        let mut found = true;
+        for o in &ops {
+            while let Some(nx) = g.io[st] {
+                st = nx;
+            }
+            let key = serde_json::to_string(o).unwrap();
+            match g.ops[st].iter().position(|e| serde_json::to_string(&e.op).unwrap() == key) {
+                Some(i) => {
+                    p.push((st, i));
+                    st = g.ops[st][i].to;
+                }
+                None => {
+                    found = false;
+                    break;
+                }
+            }
+        }
+        if !found {
+            std::fs::write(&out, json!({"found": false, "findings": []}).to_string()).unwrap();
+            return 0;
+        }
+        paths.push(p);
+    } else {
+        rec(&g, g.init, &mut vec![], &mut paths);
+    }
+    let total_paths = paths.len();
+    if sample > 0 && (sample as usize) < paths.len() && arg(args, "--replay").is_none() {
+        let mut rng = SplitMix(seed.wrapping_mul(0x51ED27));
+        let mut chosen = vec![];
+        for _ in 0..sample {
+            chosen.push(paths.swap_remove(rng.below(paths.len())));
+        }
+        paths = chosen;
+    }
+    let stats = Stats {
+        paths: AtomicU64::new(0),
+        states: AtomicU64::new(0),
+        crash_checks: AtomicU64::new(0),
+        gate_calls: AtomicU64::new(0),
+        nontrivial: AtomicU64::new(0),
+    };
+    let findings: Mutex<Vec<Finding>> = Mutex::new(vec![]);
+    let next = AtomicU64::new(0);
+    std::thread::scope(|sc| {
+        for th in 0..threads {
+            let (g, paths, stats, findings, next, engine, scratch) = (&g, &paths, &stats, &findings, &next, &engine, &scratch);
+            sc.spawn(move || {
+                let rt = tokio::runtime::Builder::new_current_thread().enable_all().build().unwrap();
+                loop {
+                    let k = next.fetch_add(1, Ordering::SeqCst) as usize;
+                    if k >= paths.len() {
+                        break;
+                    }
+                    let p: Vec<&Edge> = paths[k].iter().map(|(s, i)| &g.ops[*s][*i]).collect();
+                    let mut out = vec![];
+                    if engine == "gated" {
+                        run_gated(g, &rt, &p, stats, &mut out);
+                    } else {
+                        run_engine(g, &rt, &p, engine, &scratch.join(format!("{engine}-t{th}")), stats, &mut out);
+                    }
+                    if !out.is_empty() {
+                        let mut f = findings.lock().unwrap();
+                        if f.len() < 200000 {
+                            f.extend(out);
+                        }
+                    }
+                }
+            });
+        }
+    });
+    let samples: Vec<Value> = paths.iter().take(3).map(|p| json!(p.iter().map(|(s, i)| g.ops[*s][*i].op.clone()).collect::<Vec<_>>())).collect();
+    let res = json!({
+        "found": true,
+        "engine": engine,
+        "graph_states": g.states.len(),
+        "graph_edges": g.n_edges,
+        "total_paths": total_paths,
+        "paths": stats.paths.load(Ordering::Relaxed),
+        "states_visited": stats.states.load(Ordering::Relaxed),
+        "crash_checks": stats.crash_checks.load(Ordering::Relaxed),
+        "gate_calls": stats.gate_calls.load(Ordering::Relaxed),
+        "nontrivial": stats.nontrivial.load(Ordering::Relaxed),
+        "samples": samples,
+        "findings": *findings.lock().unwrap(),
+    });
+    std::fs::write(&out, serde_json::to_string(&res).unwrap()).unwrap();
+    0
+}
